@@ -276,6 +276,8 @@ class Matcher:
         if g is True and isinstance(p, str):
             return nxt((i, off + 1), caps) if self.char_ok(op, av, p[off]) else None
         r = self.rel(op, av, p)
+        if g is True and isinstance(p, Atom) and p.exact1 and r != 'some':
+            return nxt((i + 1, 0), caps) if r == 'all' else None
         if r == 'none':
             if g is True and (isinstance(p, str) or p.minlen >= 1):
                 return None
@@ -320,6 +322,14 @@ class Matcher:
                     continue
                 break
             r = self.rel(op, av, piece)
+            if g is True and isinstance(piece, Atom) and piece.exact1 and r != 'some':
+                # a one-character atom behaves like a concrete character
+                if r == 'none' or (not sym and hi is not MAXREPEAT and n_conc >= hi):
+                    break
+                n_conc += 1
+                p = (i + 1, 0)
+                stops.append((self.norm(p), None))
+                continue
             if r == 'all':
                 ln = len(piece) if isinstance(piece, str) else z3.Length(piece.t)
                 sym.append(z3.If(g, ln, 0) if g is not True else ln)
@@ -412,39 +422,33 @@ def match(it, pattern, subject, flags=0, full=False):
     return UMatch(m, m.norm((0, 0)), r[0], r[1], ng)
 
 
-def _starts(m, items):
-    """Candidate start positions, left to right, for an unanchored search."""
-    out = []
-    for i, (g, p) in enumerate(m.segs):
-        if g is True and isinstance(p, str):
-            out.extend((i, off) for off in range(len(p)))
-        else:
-            out.append((i, 0))
-            if not (isinstance(p, str) and len(p) == 1) and m.may_start_inside(items, p):
-                raise Undetermined('a match could start inside an uncertain segment')
-    out.append((m.n, 0))
-    return out
-
-
 def finditer(it, pattern, subject, flags=0):
+    """All non-overlapping matches, leftmost first (re.finditer order)."""
     items, ng = _parse(pattern, flags)
     m = Matcher(it, subject, flags)
-    starts = _starts(m, items)
     res = []
-    k = 0
-    while k < len(starts):
-        st = m.norm(starts[k])
-        r = m.match_seq(items, 0, st, {}, lambda p, c: (m.norm(p), c), [])
-        if r is None:
-            k += 1
+    pos = m.norm((0, 0))
+    while True:
+        i, off = pos
+        r = m.match_seq(items, 0, pos, {}, lambda p, c: (m.norm(p), c), [])
+        if r is not None:
+            end = r[0]
+            res.append(UMatch(m, pos, end, r[1], ng))
+            if end != pos:
+                pos = end
+                continue
+        if i >= m.n:
+            break
+        g, p = m.segs[i]
+        if g is True and isinstance(p, str):
+            pos = m.norm((i, off + 1))
             continue
-        end = r[0]
-        res.append(UMatch(m, st, end, r[1], ng))
-        if end == st:
-            k += 1
-        else:
-            while k < len(starts) and m.norm(starts[k]) < end:
-                k += 1
+        # no match starts at the beginning of this uncertain segment: starts strictly inside it
+        # are skipped, which is sound only if the pattern cannot start there
+        if not ((isinstance(p, str) and len(p) == 1) or (isinstance(p, Atom) and p.exact1)) \
+                and m.may_start_inside(items, p):
+            raise Undetermined('a match could start inside an uncertain segment')
+        pos = m.norm((i + 1, 0))
     return res
 
 
